@@ -76,8 +76,8 @@ CHECKS = {
               "path without an applicable rule. Exactness / reflexivity / transitivity / bottom on ground class types is NOT "
               "proved: bounded exhaustive comparison on a 155-type universe. Type identity (the __eq__ / __hash__ overrides) is under contract too; the bounded part also edits the hierarchy behind a generic supertype and re-queries."),
         note=("trusted: Horn rules are the declarative relation; PyEq (__eq__) as type identity; Valid(t) well-formedness as "
-              "precondition; same-constructor-same-arity; ParameterizedType.is_assignable (Java primitive arrays) and the "
-              "__eq__ overrides not under contract"),
+              "precondition; same-constructor-same-arity; ParameterizedType.is_assignable is under contract too (result implies Sub, or both are Java arrays with == element types); the "
+              "__eq__ overrides are under the identity contracts only"),
         design='DESIGN.md section 4 (C06)'),
     'C07': dict(
         level='proof',
